@@ -16,7 +16,8 @@ LEVEL = "fault_enumeration"
 EXHAUSTIVE = True
 RULE = ("case = payload length x block-size plan (all sequences over the block-size alphabet as long as the transfer "
         "needs for short payloads, constant/alternating plans above) x CRC negotiation {granted, refused, not requested} x "
-        "server behaviour on a stalled sub-block {silent, acknowledges what it got}; within a case every set of <= D "
+        "server behaviour on a stalled sub-block {silent, acknowledges what it got}; + an undisturbed earlier download on the "
+        "same / another client object; + payload written in pieces through buffered writers of size 8..1024; within a case every set of <= D "
         "dropped segments (incl. retransmitted ones); non-trivial = executions with >= 1 drop or >= 2 sub-blocks")
 ASSUMPTIONS = [
     "the CRC field of the end frame is compared only when both sides negotiated CRC",
@@ -62,6 +63,15 @@ def cases(tier, seed):
                     for crc in ("granted", "not-requested"):
                         out.append({"n": n, "plan": list(plan), "crc": crc, "stall": "ack", "D": 1 if tier == "quick" else 2,
                                     "seed": seed, "pre": pre, "pre_n": pre_n})
+    # the payload handed over in pieces through the buffered writer (buffer smaller than the payload: it is recycled)
+    for n, bufs, pieces in ((36, (8, 16), (1, 5, 10)), (64, (8, 16), (5, 10, 33)), (150, (16, 64), (10, 100)),
+                            (3000, (None,), (100, 1023)), (2100, (None, 512), (1025, 7))):
+        for buf in bufs:
+            for piece in pieces:
+                for crc in ("granted", "not-requested"):
+                    out.append({"n": n, "plan": [127] if n > 100 else [3, 127], "crc": crc, "stall": "ack",
+                                "D": 1 if n <= 64 or tier == "thorough" and n <= 150 else 0, "seed": seed,
+                                "buffering": buf, "piece": piece})
     if tier == "thorough":
         for n in (888, 889, 890, 1778, 10000):
             for plan in ((127,), (1,), (2, 3), (5, 1, 127), (126, 3)):
@@ -118,9 +128,12 @@ def one(case, ch):
     state["main"] = True
     err = None
     try:
+        kw = {} if case.get("buffering") is None else {"buffering": case["buffering"]}
         with link.node.sdo.open(MUX[0], MUX[1], "wb", size=n, block_transfer=True,
-                                request_crc_support=case["crc"] != "not-requested") as fp:
-            fp.write(payload)
+                                request_crc_support=case["crc"] != "not-requested", **kw) as fp:
+            piece = case.get("piece") or max(n, 1)
+            for a in range(0, max(n, 1), piece):
+                fp.write(payload[a:a + piece])
     except Exception as e:  # noqa: BLE001
         err = e
     committed = [c for c in srv.commits]
@@ -160,6 +173,19 @@ def run_case(case, st):
             st.nontrivial_n += 1
         ok_commit = r["commits"] == [(struct.pack("<HB", *MUX), r["payload"])] and r["stored"] == r["payload"]
         tag = f"{case['crc']}:{case['stall']}"
+        chain, e = [], r["err"]
+        while e is not None and len(chain) < 8:
+            chain.append(e)
+            e = e.__context__ or e.__cause__
+        if case.get("piece") and any(isinstance(x, BlockingIOError) for x in chain):
+            # the raw stream refuses a 1..6 byte remainder in mid-transfer (write() returns None) and the buffered writer
+            # has no room to keep it: the call fails (visibly) although nothing disturbed the transfer
+            st.outcome("piecewise write refused (BlockingIOError)")
+            st.violation("C12:piecewise-write:remainder-refused:BlockingIOError", rc, "an undisturbed download returns normally",
+                         f"{type(r['err']).__name__} after BlockingIOError; buffering={case.get('buffering')} piece={case['piece']} n={case['n']}")
+            if r["commits"] and r["commits"][-1][1] != r["payload"] and type(r["err"]) is None:
+                pass
+            return
         if r["err"] is None:
             st.outcome(f"drops={len(drops)} returns, committed={ok_commit}")
             if not ok_commit:
